@@ -36,5 +36,7 @@ def to_mdx(data: bytes) -> bytes:
     return hdr + data
 
 
-def data_cue(bin_name: str, mode: str) -> str:
-    return 'FILE "%s" BINARY\n  TRACK 01 %s\n    INDEX 01 00:00:00\n' % (bin_name, mode)
+def data_cue(bin_name: str, mode: str, kw_case=None) -> str:
+    # cue keywords are case-insensitive; some authoring tools write them in lower or title case
+    kw = (lambda w: w.lower()) if kw_case == "lower" else ((lambda w: w.title()) if kw_case == "title" else (lambda w: w))
+    return '%s "%s" %s\n  %s 01 %s\n    %s 01 00:00:00\n' % (kw("FILE"), bin_name, kw("BINARY"), kw("TRACK"), kw(mode), kw("INDEX"))
